@@ -86,6 +86,7 @@ func (t *Trace) Now() time.Duration { return time.Since(t.start) }
 
 // Add appends e, stamping Seq/VT/G. Returns the sequence number.
 func (t *Trace) Add(e Event) int {
+	Progress.Add(1)
 	g := goid()
 	t.mu.Lock()
 	e.Seq = len(t.Events)
